@@ -53,6 +53,13 @@ CHECKS = {
             'errors and the predicate call log (short-circuit) compared with the reference; all 1638 Check keyword combinations x sub-spec x target.',
             'Deeper levels keep the first K terms per (constructor, outcome vector); Check with literal defaults only.',
             '3/C10'),
+    'C09': ('model_checking',
+            'bounded exhaustive enumeration of Match patterns x (witnesses, all one-edit mutations of the witnesses, unrelated targets) against a literal implementation of the documented matching rules',
+            'Every pattern of depth <= 2 (thorough: 3) over literals, types, Regex, predicates, M, And/Or/Not, list/set/frozenset/tuple and dict patterns with literal, type, '
+            'Optional(+default), Required and compound keys x targets derived from the pattern: acceptance in both directions (soundness and completeness), returned value, '
+            'MatchError / TypeMatchError class, agreement of matches(), verify(), Match(default=) and an identity snapshot of the target.',
+            'First-accepting-key / no back-tracking reading of dict patterns; TypeMatchError required only where the reference attributes the failure to a type rule; plain callables as dict KEYS are outside the alphabet.',
+            '3/C09'),
 }
 
 NOT_YET = {}
